@@ -93,7 +93,7 @@ func runC13(c *Ctx) {
 			}
 			return se.X, true
 		}
-		if fd.Recv == nil && splicedEverywhere(p, pkg, fd) {
+		if splicedEverywhere(p, pkg, fd) {
 			continue // a shared notification helper: judged inside every writer it is spliced into
 		}
 		for _, pt := range f.Find(func(n ast.Node) bool {
@@ -208,8 +208,8 @@ func runC13(c *Ctx) {
 			}
 		}
 	}
-	if nInvoke < 7 {
-		r.Fail("cb/invoke-under-execution-lock", pkg, "-", fmt.Sprintf("expected at least 7 Invoke sites, found %d", nInvoke))
+	if nInvoke < 6 {
+		r.Fail("cb/invoke-under-execution-lock", pkg, "-", fmt.Sprintf("expected at least 6 Invoke sites, found %d", nInvoke))
 	}
 	// (2) writers: the value helper call and the loop are in the SAME section (single acquisition, deferred release)
 	for _, row := range []struct{ typ, m, helper string }{
